@@ -14,7 +14,7 @@ theorem filterMap_congr' {α β} {f g : α → Option β} : ∀ {l : List α}, (
 
 /-! ### stable insertion sort -/
 
-theorem insertBy_perm {α} (key : α → Nat) (x : α) (l : List α) : insertBy key x l ~ x :: l := by
+theorem insertBy_perm {α} (key : α → Int) (x : α) (l : List α) : insertBy key x l ~ x :: l := by
   induction l with
   | nil => simp [insertBy]
   | cons y ys ih =>
@@ -23,15 +23,15 @@ theorem insertBy_perm {α} (key : α → Nat) (x : α) (l : List α) : insertBy 
     · exact Perm.refl _
     · exact (Perm.cons y ih).trans (Perm.swap x y ys)
 
-theorem sortBy_perm {α} (key : α → Nat) (l : List α) : sortBy key l ~ l := by
+theorem sortBy_perm {α} (key : α → Int) (l : List α) : sortBy key l ~ l := by
   induction l with
   | nil => simp [sortBy]
   | cons x xs ih => exact (insertBy_perm key x _).trans (Perm.cons x ih)
 
-theorem mem_sortBy {α} {key : α → Nat} {l : List α} {a : α} : a ∈ sortBy key l ↔ a ∈ l :=
+theorem mem_sortBy {α} {key : α → Int} {l : List α} {a : α} : a ∈ sortBy key l ↔ a ∈ l :=
   (sortBy_perm key l).mem_iff
 
-theorem insertBy_sorted {α} (key : α → Nat) (x : α) (l : List α)
+theorem insertBy_sorted {α} (key : α → Int) (x : α) (l : List α)
     (h : l.Pairwise (fun a b => key a ≤ key b)) :
     (insertBy key x l).Pairwise (fun a b => key a ≤ key b) := by
   induction l with
@@ -44,7 +44,7 @@ theorem insertBy_sorted {α} (key : α → Nat) (x : α) (l : List α)
       intro z hz
       rcases mem_cons.mp hz with rfl | hz
       · exact hxy
-      · exact Nat.le_trans hxy (rel_of_pairwise_cons h hz)
+      · exact Int.le_trans hxy (rel_of_pairwise_cons h hz)
     · rename_i hxy
       refine Pairwise.cons ?_ (ih h.tail)
       intro z hz
@@ -53,19 +53,19 @@ theorem insertBy_sorted {α} (key : α → Nat) (x : α) (l : List α)
       · omega
       · exact rel_of_pairwise_cons h hz
 
-theorem sortBy_sorted {α} (key : α → Nat) (l : List α) :
+theorem sortBy_sorted {α} (key : α → Int) (l : List α) :
     (sortBy key l).Pairwise (fun a b => key a ≤ key b) := by
   induction l with
   | nil => simp [sortBy]
   | cons x xs ih => exact insertBy_sorted key x _ ih
 
 /-- Sorting two arrangements of the same rows gives the same list when keys are distinct. -/
-theorem sortBy_eq_of_perm {α} (key : α → Nat) {l l' : List α} (hp : l ~ l')
+theorem sortBy_eq_of_perm {α} (key : α → Int) {l l' : List α} (hp : l ~ l')
     (hinj : ∀ a ∈ l, ∀ b ∈ l, key a = key b → a = b) : sortBy key l = sortBy key l' := by
   refine Perm.eq_of_pairwise (le := fun a b => key a ≤ key b) ?_ (sortBy_sorted key l) (sortBy_sorted key l')
     ((sortBy_perm key l).trans (hp.trans (sortBy_perm key l').symm))
   intro a b ha hb hab hba
-  exact hinj a (mem_sortBy.mp ha) b (hp.mem_iff.mpr (mem_sortBy.mp hb)) (Nat.le_antisymm hab hba)
+  exact hinj a (mem_sortBy.mp ha) b (hp.mem_iff.mpr (mem_sortBy.mp hb)) (Int.le_antisymm hab hba)
 
 /-! ### FOLLOWED BY -/
 
@@ -95,7 +95,7 @@ theorem fbSpec_skip (c : Cfg) (as bs : List Row) (b : Row) (h : ∀ a ∈ as, c.
   apply filterMap_congr'
   intro a ha
   have := h a ha
-  simp [fbStep, nearestF, Nat.not_le.mpr this]
+  simp [fbStep, nearestF, Int.not_le.mpr this]
 
 theorem fbLoop_eq_spec (c : Cfg) : ∀ (fuel : Nat) (as bs : List Row),
     as.Pairwise (fun x y => c.ts x ≤ c.ts y) → as.length + bs.length ≤ fuel →
@@ -175,7 +175,7 @@ theorem followedBy_nil_right (c : Cfg) (as : List Row) : followedBy c as [] = []
 
 /-! ### PRECEDED BY -/
 
-theorem advanceB_spec (c : Cfg) (t : Nat) : ∀ (bs : List Row) (b : Row), c.ts b < t →
+theorem advanceB_spec (c : Cfg) (t : Int) : ∀ (bs : List Row) (b : Row), c.ts b < t →
     ∃ pre, b :: bs = pre ++ (advanceB c t b bs).1 :: (advanceB c t b bs).2 ∧
       (∀ x ∈ pre, c.ts x < t) ∧ c.ts (advanceB c t b bs).1 < t ∧
       (∀ y, (advanceB c t b bs).2.head? = some y → t ≤ c.ts y) := by
@@ -229,104 +229,75 @@ theorem pbSpec_drop (c : Cfg) (as pre : List Row) (lb : Row) (rest : List Row)
   intro a ha
   simp only [pbStep, latestP_drop c a pre lb rest (h a ha).1 (h a ha).2]
 
-theorem pbLoop_eq_spec (c : Cfg) : ∀ (fuel : Nat) (as : List Row) (b : Row) (bs : List Row),
-    as.Pairwise (fun x y => c.ts x ≤ c.ts y) → (∀ a ∈ as, c.ts b < c.ts a) →
-    as.length + (b :: bs).length ≤ fuel →
-    pbLoop c fuel as (b :: bs) = pbSpec c as (b :: bs) := by
+theorem pbLoop_eq_spec (c : Cfg) : ∀ (fuel : Nat) (as bs : List Row),
+    as.Pairwise (fun x y => c.ts x ≤ c.ts y) → as.length + bs.length ≤ fuel →
+    pbLoop c fuel as bs = pbSpec c as bs := by
   intro fuel
   induction fuel with
-  | zero => intro as b bs _ _ hf; simp at hf
+  | zero =>
+    intro as bs _ hf
+    have h1 : as = [] := by cases as <;> simp_all
+    subst h1
+    simp [pbLoop, pbSpec]
   | succ fuel ih =>
-    intro as b bs hs hb hf
+    intro as bs hs hf
     cases as with
     | nil => simp [pbLoop, pbSpec]
     | cons a as =>
-      have hba : c.ts b < c.ts a := hb a (by simp)
-      simp only [pbLoop, hba, if_true]
-      obtain ⟨pre, h1, h2, h3, h4⟩ := advanceB_spec c (c.ts a) bs b hba
-      generalize hadv : advanceB c (c.ts a) b bs = lb at h1 h2 h3 h4
-      obtain ⟨lb, rest⟩ := lb
-      simp only at h1 h2 h3 h4 ⊢
-      have hlen : (lb :: rest).length ≤ (b :: bs).length := by
-        rw [h1]; simp
-      have hlater : ∀ a' ∈ as, c.ts a ≤ c.ts a' := fun a' ha' => rel_of_pairwise_cons hs ha'
-      rw [ih as lb rest hs.tail (fun a' ha' => Nat.lt_of_lt_of_le h3 (hlater a' ha'))
-        (by simp at hf hlen ⊢; omega)]
-      -- closed form of the head
-      have hhead : pbStep c (b :: bs) a = if c.pairOk a lb then some (lb, a) else none := by
-        have : latestP c a (b :: bs) = some lb := by
-          rw [h1]
-          unfold latestP
-          rw [takeWhile_append_of_pos (by simpa using h2)]
-          simp only [takeWhile_cons, h3, decide_true, if_true]
-          have : rest.takeWhile (fun b => decide (c.ts b < c.ts a)) = [] := by
-            cases rest with
-            | nil => simp
-            | cons y ys =>
-              have := h4 y (by simp)
-              simp [Nat.not_lt.mpr this]
-          rw [this, getLast?_append]
-          simp
-        simp [pbStep, this]
-      have htail : pbSpec c as (b :: bs) = pbSpec c as (lb :: rest) := by
-        rw [h1]
-        apply pbSpec_drop
-        intro a' ha'
-        exact ⟨fun x hx => Nat.lt_of_lt_of_le (h2 x hx) (hlater a' ha'), Nat.lt_of_lt_of_le h3 (hlater a' ha')⟩
-      show _ = pbSpec c (a :: as) (b :: bs)
-      conv => rhs; unfold pbSpec; rw [filterMap_cons]
-      rw [hhead]
-      have : filterMap (pbStep c (b :: bs)) as = pbSpec c as (b :: bs) := rfl
-      rw [this, htail]
-      split <;> simp
-
-/-- while the current b is not earlier than the current a, only `b_ptr` moves -/
-theorem pbLoop_dropWhile (c : Cfg) (a : Row) (as : List Row) : ∀ (bs : List Row) (fuel : Nat),
-    (a :: as).length + bs.length ≤ fuel →
-    ∃ fuel', (a :: as).length + (bs.dropWhile fun b => c.ts a ≤ c.ts b).length ≤ fuel' ∧
-      pbLoop c fuel (a :: as) bs = pbLoop c fuel' (a :: as) (bs.dropWhile fun b => c.ts a ≤ c.ts b) := by
-  intro bs
-  induction bs with
-  | nil => intro fuel hf; exact ⟨fuel, by simpa using hf, by simp⟩
-  | cons b bs ih =>
-    intro fuel hf
-    cases fuel with
-    | zero => simp at hf
-    | succ fuel =>
-      by_cases hb : c.ts b < c.ts a
-      · refine ⟨fuel + 1, ?_, ?_⟩
-        · simp [Nat.not_le.mpr hb]; simp at hf; omega
-        · simp [Nat.not_le.mpr hb]
-      · obtain ⟨fuel', h1, h2⟩ := ih fuel (by simp at hf ⊢; omega)
-        refine ⟨fuel', ?_, ?_⟩
-        · simpa [Nat.not_lt.mp hb] using h1
-        · simp only [pbLoop, hb, if_false]
-          rw [h2]
-          simp [Nat.not_lt.mp hb]
+      cases bs with
+      | nil => simp [pbLoop, pbSpec_nil_right]
+      | cons b bs =>
+        have hlater : ∀ a' ∈ as, c.ts a ≤ c.ts a' := fun a' ha' => rel_of_pairwise_cons hs ha'
+        simp only [pbLoop]
+        split
+        · rename_i hba
+          obtain ⟨pre, h1, h2, h3, h4⟩ := advanceB_spec c (c.ts a) bs b hba
+          generalize hadv : advanceB c (c.ts a) b bs = lb at h1 h2 h3 h4
+          obtain ⟨lb, rest⟩ := lb
+          simp only at h1 h2 h3 h4 ⊢
+          have hlen : (lb :: rest).length ≤ (b :: bs).length := by
+            rw [h1]; simp
+          rw [ih as (lb :: rest) hs.tail (by simp at hf hlen ⊢; omega)]
+          -- closed form of the head
+          have hhead : pbStep c (b :: bs) a = if c.pairOk a lb then some (lb, a) else none := by
+            have : latestP c a (b :: bs) = some lb := by
+              rw [h1]
+              unfold latestP
+              rw [takeWhile_append_of_pos (by simpa using h2)]
+              simp only [takeWhile_cons, h3, decide_true, if_true]
+              have : rest.takeWhile (fun b => decide (c.ts b < c.ts a)) = [] := by
+                cases rest with
+                | nil => simp
+                | cons y ys =>
+                  have := h4 y (by simp)
+                  simp [Int.not_lt.mpr this]
+              rw [this, getLast?_append]
+              simp
+            simp [pbStep, this]
+          have htail : pbSpec c as (b :: bs) = pbSpec c as (lb :: rest) := by
+            rw [h1]
+            apply pbSpec_drop
+            intro a' ha'
+            exact ⟨fun x hx => Int.lt_of_lt_of_le (h2 x hx) (hlater a' ha'), Int.lt_of_lt_of_le h3 (hlater a' ha')⟩
+          show _ = pbSpec c (a :: as) (b :: bs)
+          conv => rhs; unfold pbSpec; rw [filterMap_cons]
+          rw [hhead]
+          have : filterMap (pbStep c (b :: bs)) as = pbSpec c as (b :: bs) := rfl
+          rw [this, htail]
+          split <;> simp
+        · rename_i hba
+          -- no b is earlier than this a: it yields nothing, the sweep goes on with the next a
+          rw [ih as (b :: bs) hs.tail (by simp at hf ⊢; omega)]
+          have hnone : pbStep c (b :: bs) a = none := by
+            simp [pbStep, latestP, hba]
+          show _ = pbSpec c (a :: as) (b :: bs)
+          conv => rhs; unfold pbSpec; rw [filterMap_cons, hnone]
+          rfl
 
 /-- closed form of `match_preceded_by` on a time-sorted a-list (any b-list) -/
-theorem precededBy_eq_spec (c : Cfg) (a : Row) (as bs : List Row)
-    (hs : (a :: as).Pairwise (fun x y => c.ts x ≤ c.ts y)) :
-    precededBy c (a :: as) bs = pbSpec c (a :: as) (bs.dropWhile fun b => c.ts a ≤ c.ts b) := by
-  unfold precededBy
-  obtain ⟨fuel', h1, h2⟩ := pbLoop_dropWhile c a as bs _ (Nat.le_refl _)
-  rw [h2]
-  cases hd : bs.dropWhile (fun b => decide (c.ts a ≤ c.ts b)) with
-  | nil =>
-    rw [pbSpec_nil_right]
-    cases fuel' <;> simp [pbLoop]
-  | cons b rest =>
-    rw [hd] at h1
-    have hb : c.ts b < c.ts a := by
-      have := head?_dropWhile_not (fun b => decide (c.ts a ≤ c.ts b)) bs
-      rw [hd] at this
-      simp at this
-      omega
-    apply pbLoop_eq_spec c fuel' (a :: as) b rest hs _ h1
-    intro a' ha'
-    rcases mem_cons.mp ha' with rfl | ha'
-    · exact hb
-    · exact Nat.lt_of_lt_of_le hb (rel_of_pairwise_cons hs ha')
+theorem precededBy_eq_spec (c : Cfg) (as bs : List Row)
+    (hs : as.Pairwise (fun x y => c.ts x ≤ c.ts y)) : precededBy c as bs = pbSpec c as bs :=
+  pbLoop_eq_spec c _ as bs hs (Nat.le_refl _)
 
 theorem mem_takeWhile_imp' {α} {p : α → Bool} : ∀ {l : List α} {x : α}, x ∈ l.takeWhile p → p x = true ∧ x ∈ l := by
   intro l
@@ -358,7 +329,7 @@ theorem latestP_isSome_of_mem {c : Cfg} {a b : Row} {bs : List Row}
     have h0 : c.ts b0 < c.ts a := by
       rcases mem_cons.mp hb with rfl | hb
       · exact ht
-      · exact Nat.lt_of_le_of_lt (rel_of_pairwise_cons hs hb) ht
+      · exact Int.lt_of_le_of_lt (rel_of_pairwise_cons hs hb) ht
     unfold latestP
     rw [takeWhile_cons_of_pos (by simpa using h0)]
     cases h : (b0 :: takeWhile (fun b => decide (c.ts b < c.ts a)) rest).getLast? with
@@ -395,8 +366,8 @@ theorem mem_pbLoop (c : Cfg) : ∀ (fuel : Nat) (as bs : List Row) (p : Pair), p
             · simp at h
           · obtain ⟨q1, q2, q3, q4⟩ := ih as (lb :: rest) p h
             exact ⟨mem_cons_of_mem _ q1, hsub _ q2, q3, q4⟩
-        · obtain ⟨q1, q2, q3, q4⟩ := ih (a :: as) bs p h
-          exact ⟨q1, mem_cons_of_mem _ q2, q3, q4⟩
+        · obtain ⟨q1, q2, q3, q4⟩ := ih as (b :: bs) p h
+          exact ⟨mem_cons_of_mem _ q1, q2, q3, q4⟩
 
 theorem precededBy_nil_left (c : Cfg) (bs : List Row) : precededBy c [] bs = [] := by
   unfold precededBy; cases h : ([] : List Row).length + bs.length <;> simp [pbLoop]
